@@ -550,10 +550,15 @@ class Universe:
                     if pl.get("extra"):
                         # defined only at path level: inherited by every operation of the path
                         d = {"name": "X-Path", "in": "header", "required": True, "schema": {"type": "string", "enum": [f"pl-{name}"]}}
+                        if pl.get("example"):
+                            # an example that lives only on the shared path-level parameter: every operation of the path has it
+                            d["example"] = f"pl-{name}"
                         plist.append(d)
                         for mk, opdef in paths[ppath].items():
                             k = f"{mk.upper()} {ppath}"
                             self.ops[k].params.append(RefParam("X-Path", "header", d["schema"], True, level="path", marker=f"pl-{name}"))
+                            if pl.get("example"):
+                                self.ops[k].examples.append({"location": "header", "name": "X-Path", "value": f"pl-{name}"})
                     if pl.get("override"):
                         # same name and location as an operation-level parameter: the operation-level one wins
                         for mk, opdef in paths[ppath].items():
